@@ -174,7 +174,7 @@ def select__simple_map_operator(self: XPathToken, context: ta.ContextType = None
     if context is None:
         raise self.missing_context()
 
-    for context.item in self[0].select_with_focus(context):
+    for context.item in self[0].select_with_focus(context, forward=True):
         for result in self[1].select(context):
             yield result
 
